@@ -105,8 +105,13 @@ func (e *Eng) actDeviceDecide() {
 		}
 	}
 	subject := fmt.Sprintf("user-%d", d.G.N)
-	ok := e.w.DeviceDecide(d.UserCode, accept, h.Consent{Session: e.sessFor(subject), Scopes: append([]string{}, granted...)})
+	// one integrator in three installs a session of its own without the expiry instants of the device endpoint
+	fresh := rapid.IntRange(0, 2).Draw(t, "freshSession") == 0
+	ok := e.w.DeviceDecide(d.UserCode, accept, h.Consent{Session: e.sessFor(subject), Scopes: append([]string{}, granted...), FreshSession: fresh})
 	e.step(fmt.Sprintf("deviceDecide:%v", accept))
+	if fresh && accept {
+		h.Label("device-session-without-expiry")
+	}
 	exp := e.timeExpired(d)
 	e.logf("deviceDecide %v accept=%v granted=%q -> found=%v (expiry state %v)", d, accept, granted, ok, exp)
 	if !ok {
